@@ -62,4 +62,28 @@ static void mutate (MEMF *m, const CORP *base, char *desc, size_t dlen)
 }
 
 
+/* systematic chunk mutations: enumerate every 4-character printable marker at an even offset in the first 'span' bytes; mutation 'kind' of marker 'idx'.
+** returns 0 when idx is past the last marker */
+static int mutate_marker (MEMF *m, const CORP *base, int idx, int kind, long span, char *desc, size_t dlen)
+{	long p, found = -1 ; int n = 0 ; uint32_t old ; int big ;
+	if (span > base->len - 8) span = base->len - 8 ;
+	for (p = 0 ; p < span ; p += 2) if (is_marker (base->d + p)) { if (n == idx) { found = p ; break ; } n++ ; }
+	if (found < 0) return 0 ;
+	mv_from (m, base->d, base->len) ; m->cap = m->len + 1 ;
+	big = (kind & 1) ; old = get32 (m->d + found + 4, big) ;
+	switch (kind >> 1)
+	{	case 0 : put32 (m->d + found + 4, 0, big) ; break ;
+		case 1 : put32 (m->d + found + 4, old + 1, big) ; break ;
+		case 2 : put32 (m->d + found + 4, old - 1, big) ; break ;
+		case 3 : put32 (m->d + found + 4, 0x7fffffff, big) ; break ;
+		case 4 : put32 (m->d + found + 4, (uint32_t) (m->len - found), big) ; break ;
+		case 5 : m->d [found] = 'z' ; m->d [found + 1] = 'Z' ; break ;			/* unknown chunk id */
+		case 6 : put32 (m->d + found + 4, 0xfffffff0u, big) ; break ;
+		default : m->len = found + 8 + ((kind & 1) ? 3 : 0) ; break ;			/* file ends inside this chunk */
+		}
+	snprintf (desc, dlen, "marker#%d(%.4s)@%ld kind %d", idx, base->d + found, found, kind) ;
+	return 1 ;
+}
+#define MUTATE_MARKER_KINDS 16
+
 #endif
